@@ -3,6 +3,7 @@ package rag
 import (
 	"fmt"
 	"strings"
+	"unicode/utf8"
 )
 
 // SizeUnit defines the unit of measurement for chunk sizes
@@ -501,7 +502,20 @@ func findWordBoundaryNear(text string, targetPos int) int {
 		}
 	}
 
-	return targetPos
+	// No break nearby: fall back to the target position, moved back to the
+	// start of a UTF-8 sequence so that a multi-byte character is never cut.
+	pos := targetPos
+	for pos > 0 && !utf8.RuneStart(text[pos]) {
+		pos--
+	}
+	if pos <= 0 {
+		// The first character alone is longer than the target: keep it whole.
+		pos = targetPos
+		for pos < len(text) && !utf8.RuneStart(text[pos]) {
+			pos++
+		}
+	}
+	return pos
 }
 
 // isSentenceEndChar checks if a character typically ends a sentence
